@@ -11,7 +11,16 @@ CRATES = {
             # (source file the module is appended to, harness file, module name, visibility)
             ("src/crypto/mod.rs", "mpq/crypto.rs", "verif_kani_crypto", ""),
             ("src/tables/mod.rs", "mpq/tables_common.rs", "verif_kani_common", "pub(crate)"),
+            ("src/security.rs", "mpq/security.rs", "verif_kani_security", ""),
+            ("src/compression/compress.rs", "mpq/compress.rs", "verif_kani_compress", ""),
+            ("src/archive.rs", "mpq/archive_fab.rs", "verif_kani_archive", "pub(crate)"),
+            ("src/builder.rs", "mpq/builder_path.rs", "verif_kani_builder_path", ""),
         ],
+        "prepend": [("src/lib.rs", "#![cfg_attr(kani, feature(read_buf, core_io_borrowed_buf))]")],
+    },
+    "cdbc": {
+        "dir": "file-formats/database/wow-cdbc",
+        "attach": [("src/writer.rs", "cdbc/writer.rs", "verif_kani_writer", "")],
     },
     "wdt": {
         "dir": "file-formats/world-data/wow-wdt",
@@ -167,3 +176,78 @@ H("C18", "wdl", _L, "thorough", "C18.e WDL chunk framing: header declares exactl
 H("C18", "wdl", _L, "thorough", "C18.e MARE heightmap 545 values write->read, payload == TOTAL_COUNT*2 == 1090", ["c18e_wdl_heightmap_roundtrip"],
   ["types::HeightMapTile::{new,read,write}"], "one outer and one inner height symbolic at symbolic indices", "545 values (format constant)", timeout=2400)
 H("C18", "wdl", _L, "quick", "canary", ["c18_wdl_canary"], ["types::Vec3d::read"], "vacuity twin", "-", expect="canary")
+
+# =============================================================================== C03
+_S = "verif_kani_security"
+_K = "verif_kani_compress"
+INST = "std::time::Instant::now -> a fixed instant (clock never advances; time limits never fire)"
+H("C03", "mpq", _K, "quick", "C03.a store-raw rule of compress() for every codec behaviour",
+  ["c03a_store_raw_n%d_l%d" % nl for nl in ((1, 0), (1, 1), (2, 0), (2, 1), (3, 1), (3, 2), (5, 3), (5, 4), (5, 5), (5, 6), (6, 4), (6, 5))],
+  ["compression::compress::compress"],
+  "input [u8; N] symbolic, method byte symbolic, codec = nondeterministic stub (fails, or returns L arbitrary bytes)",
+  "(N, L) in the listed pairs covering L < N-1, L = N-1, L = N, L > N", stubs=[FMT, "compress_internal -> nondeterministic codec (abstraction)"],
+  abstraction_stubs=["compress_internal"])
+H("C03", "mpq", _K, "quick", "canary", ["c03a_canary"], ["compression::compress::compress"], "vacuity twin", "-", expect="canary",
+  stubs=["compress_internal -> nondeterministic codec"], abstraction_stubs=["compress_internal"])
+H("C03", "mpq", _S, "quick", "C03.c every size pair the compressor can emit is accepted by the default limits (d <= 2 MiB)",
+  ["c03c_accept_%s_2mib" % m for m in ("zlib", "bzip2", "lzma", "sparse", "pkware", "huffman", "adpcm_zlib")],
+  ["security::validate_decompression_operation", "security::validate_file_bounds", "security::detect_compression_bomb_patterns",
+   "security::AdaptiveCompressionLimits::calculate_limit", "security::SessionTracker::check_session_limits_with_addition"],
+  "compressed payload size c and true size d: u64 symbolic", "3 <= d <= 2^21, 1 <= c, c + 1 < d (store-raw rule)",
+  assumes=["format-level ratio ceiling of the codec (deflate 1032:1, sparse 128:1, huffman 8:1; none for bzip2/LZMA/PKWare)",
+           "d / c <= 1000 (known finding KF-C03-ratio excluded)"], stubs=[FMT, INST])
+H("C03", "mpq", _S, "thorough", "C03.c acceptance up to max_decompressed_size (100 MiB), zlib", ["c03c_accept_zlib_100mib"],
+  ["security::validate_decompression_operation"], "c, d symbolic", "d <= 100 MiB", assumes=["deflate ceiling 1032:1", "d / c <= 1000"], stubs=[FMT, INST])
+H("C03", "mpq", _S, "quick", "C03.c witness: zlib output of 2 MiB zeros (2057 bytes)", ["c03c_accept_ratio_witness"],
+  ["security::validate_decompression_operation"], "concrete (2057, 2^21, zlib)", "one input", stubs=[FMT, INST], expect="witness:KF-C03-ratio")
+H("C03", "mpq", _S, "quick", "canary", ["c03_sec_canary"], ["security::validate_file_bounds"], "vacuity twin", "-", expect="canary")
+# =============================================================================== C05 (mpq security kernels)
+H("C05", "mpq", _S, "quick", "C05.mpq.2 security validators are total and their accept-postconditions hold",
+  ["c05_sec_validate_header_total", "c05_sec_validate_header_postcondition", "c05_sec_validate_bounds_total",
+   "c05_sec_validate_bounds_postcondition", "c05_sec_adaptive_limit_total", "c05_sec_bomb_patterns_total", "c05_sec_result_tolerance_total"],
+  ["security::validate_header_security", "security::validate_file_bounds", "security::validate_table_entry", "security::validate_sector_data",
+   "security::AdaptiveCompressionLimits::calculate_limit", "security::detect_compression_bomb_patterns", "security::validate_decompression_result"],
+  "all integer arguments symbolic; SecurityLimits fully symbolic (totality) or default (postconditions)", "none (loop-free integer code)",
+  assumes=["max_compression_ratio <= 10^6 for the adaptive-limit multiplications", "tolerance percent <= 100 and expected size <= 2^56"], stubs=[FMT])
+
+# =============================================================================== C01
+MEMFILE = "std::fs::File Read::read/read_buf, Seek::seek -> in-memory image + position (environment model)"
+CODEC = "compression::compress / compression::decompress -> abstract codec pair: compress either returns the input or method byte + 3 arbitrary bytes, decompress inverts exactly that pairing and rejects everything else"
+_BP = "verif_kani_builder_path"
+_pathfns = ["builder::ArchiveBuilder::write_file", "builder::ArchiveBuilder::add_to_hash_table", "builder::ArchiveBuilder::calculate_file_key",
+            "builder::ArchiveBuilder::encrypt_data", "archive::Archive::read_file", "archive::Archive::find_file", "tables::HashTable::find_file",
+            "archive::decrypt_file_data", "crypto::hash_string"]
+H("C01", "mpq", _BP, "quick", "C01.d writer->reader data path, single-unit files, all flag combinations",
+  ["c01d_single_unit_plain_n5", "c01d_single_unit_codec_n5", "c01d_single_unit_encrypted_n5", "c01d_single_unit_encrypted_codec_n5",
+   "c01d_empty_file", "c01d_absent_name_not_found"], _pathfns,
+  "file content [u8; 5] symbolic (0 and 3 bytes in the edge cases); CRC flag, FIX_KEY flag, codec outcome and payload symbolic; lookup under a different case/slash spelling",
+  "one file of 5 bytes at archive offset 32, 4-slot hash table, sector size 512, V1 classic tables fabricated in memory",
+  stubs=[FMT, MEMFILE, CODEC], abstraction_stubs=["compress", "decompress"], timeout=900)
+H("C01", "mpq", _BP, "quick", "canary", ["c01d_canary"], _pathfns, "vacuity twin", "-", expect="canary", stubs=[FMT, MEMFILE])
+
+# =============================================================================== C17
+RS = "std::hash::RandomState::new -> fixed SipHash keys (1,2) (environment model; HashMap keys are concrete)"
+_D = "verif_kani_writer"
+H("C17", "cdbc", _D, "quick", "C17.a field codec: write_value(parse_field_value(b)) == b and both move FieldType::size() bytes",
+  ["c17a_field_codec"], ["field_parser::parse_field_value", "writer::DbcWriter::write_value", "schema::FieldType::size"],
+  "field type (9 values) symbolic, 4 content bytes symbolic", "one scalar field (String fields: c17c)", stubs=[FMT, RS])
+H("C17", "cdbc", _D, "quick", "C17.b header the writer emits is accepted by the reader's validation of the same schema; size law for the empty table",
+  ["c17b_header_accepted_1_field", "c17b_header_accepted_2_fields", "c17b_header_accepted_3_fields"],
+  ["writer::DbcWriter::write_records", "writer::DbcWriter::build_string_block", "header::DbcHeader::parse", "schema::Schema::validate", "schema::Schema::record_size"],
+  "schema of 1/2/3 fields, each field type symbolic, each scalar or array of 1..3 (symbolic)", "<= 3 fields, array sizes <= 3, zero records",
+  stubs=[FMT, RS])
+H("C17", "cdbc", _D, "quick", "canary", ["c17_canary"], ["field_parser::parse_field_value"], "vacuity twin", "-", expect="canary", stubs=[FMT, RS])
+H("C05", "cdbc", _D, "quick", "C05.dbc header parsers and string lookups are total (no panic/overflow), derived offsets do not overflow",
+  ["c05_dbc_header_total", "c05_dbc_wdb2_header_total", "c05_dbc_wdb5_header_total", "c05_dbc_string_block_total"],
+  ["header::DbcHeader::{parse,string_block_offset,total_size}", "versions::Wdb2Header::{parse,string_block_offset,total_size}",
+   "versions::Wdb5Header::{parse,string_block_offset,total_size}", "stringblock::StringBlock::{parse,get_string}"],
+  "header bytes fully symbolic behind the assigned magic (20/48/48 bytes, symbolic truncation for WDBC); string block of 5 symbolic bytes, offset u32 symbolic",
+  "header-sized inputs; 5-byte string block", stubs=[FMT])
+
+
+# =============================================================================== per-property fragments
+# harness/cat_*.py files are executed in this namespace (they call H(...), extend CRATES / OUTSIDE)
+import glob as _glob, os as _os
+for _f in sorted(_glob.glob(_os.path.join(_os.path.dirname(_os.path.abspath(__file__)), "cat_*.py"))):
+    with open(_f) as _fh:
+        exec(compile(_fh.read(), _f, "exec"))
